@@ -79,6 +79,14 @@ PROPS = {
                         'uucore::mode::parse_numeric / parse_symbolic (so that symbolic and octal spellings agree is assumed, not proved)', 'nix user/group lookup for -user/-group/-nouser/-nogroup', 'uucore FileInformation for -samefile'],
         'not_decided': ['-samefile, -nouser, -nogroup: dependency calls only, no contract within reach', 'symbolic == octal mode spelling (uucore)'],
     },
+    'C12': {
+        'level': 'proof',
+        'explanation': "glob_to_regex (body verbatim, real String/Chars) returns exactly tr(pattern), the structural translation written from the statement and POSIX: '?' -> '.', '*' -> '.*', a quoted or ordinary character -> itself with the BRE specials escaped, a bracket expression copied, an unmatched '[' literal, a lone trailing backslash -> no pattern (never matches), no other character special; Pattern::{new, matches} pass the caseless flag through and decide by a whole-string match; the bracket scanner extract_bracket_expr is verified panic-free and terminating for every pattern, returning a proper suffix (unit globscan).",
+        'assumptions': ["onig's posix_basic syntax implements POSIX BRE (dot matches newline), accepts every translated glob, and Regex::is_match decides whole-string membership for these alternation-free patterns (argument in DESIGN section 6)",
+                        'extract_bracket_expr is a pure function of its argument (in unit glob it is the uninterpreted function `bracket`; bounds proved in unit globscan)',
+                        'which text each primary hands to Pattern::matches (last component / whole path / link target) is read off name.rs, path.rs, lname.rs: adapter code, matched textually only'],
+        'not_decided': ['validity of a bracket expression (parse_bre, onig)', "D21: backslash inside a bracket expression differs from glibc fnmatch ('[\\]]'), outside the statement's well-formed bracket expressions"],
+    },
 }
 for k in PROPS.values():
     k.setdefault('trusted', [])
